@@ -367,7 +367,10 @@ def _case_worker(task):
             else:
                 r["err"] = m
             return r
-        g = L.Gen(rng, dict(FEAT))
+        feat = dict(FEAT)
+        if rng.random() < 0.25:
+            feat["newer_only_in_funcs"] = True
+        g = L.Gen(rng, feat)
         spec = g.gen_spec()
         r = {"mode": mode, "spec": spec, "stats": L.spec_stats(spec)}
         r.update(judge(spec, rng))
